@@ -721,6 +721,11 @@ pub struct ServiceRunner {
     pub insts: BTreeMap<char, Inst>,
     pub seeds: HashMap<[u8; 32], u64>,
     pub bans: BTreeSet<String>,
+    /// the ban list as it was left by the previous observation (entries with an expiry stay on the list
+    /// between operations, as in a running node; permanent ones are taken off so that a repeated
+    /// permanent ban shows up as a new entry)
+    pub ban_prev_ips: HashMap<IpAddr, Option<std::time::Instant>>,
+    pub ban_prev_nodes: HashMap<[u8; 32], Option<std::time::Instant>>,
     /// talk engine: request objects held by the "application"
     pub talks: Vec<Option<TalkRequest>>,
     pub talk_meta: Vec<(Vec<u8>, NodeAddress)>,
@@ -734,6 +739,8 @@ impl Default for ServiceRunner {
             insts: BTreeMap::new(),
             seeds: HashMap::new(),
             bans: BTreeSet::new(),
+            ban_prev_ips: HashMap::new(),
+            ban_prev_nodes: HashMap::new(),
             talks: Vec::new(),
             talk_meta: Vec::new(),
             hold_talks: false,
@@ -865,7 +872,41 @@ impl ServiceRunner {
             }
         }
         so.items.extend(evs);
-        let (ips, nodes) = ban_take();
+        // what this step banned: entries that are new or whose expiry was set afresh
+        let (ips, nodes) = {
+            let snap = discv5::verif::limiter::permit_ban_snapshot();
+            let mut ips: Vec<IpAddr> = Vec::new();
+            let mut nodes: Vec<NodeId> = Vec::new();
+            for (ip, exp) in &snap.ban_ips {
+                if self.ban_prev_ips.get(ip) != Some(exp) {
+                    ips.push(*ip);
+                }
+            }
+            for (n, exp) in &snap.ban_nodes {
+                if self.ban_prev_nodes.get(&n.raw()) != Some(exp) {
+                    nodes.push(*n);
+                }
+            }
+            self.ban_prev_ips.clear();
+            self.ban_prev_nodes.clear();
+            for (ip, exp) in &snap.ban_ips {
+                match exp {
+                    None => inst.discv5.ban_ip_remove(ip),
+                    Some(_) => {
+                        self.ban_prev_ips.insert(*ip, *exp);
+                    }
+                }
+            }
+            for (n, exp) in &snap.ban_nodes {
+                match exp {
+                    None => inst.discv5.ban_node_remove(n),
+                    Some(_) => {
+                        self.ban_prev_nodes.insert(n.raw(), *exp);
+                    }
+                }
+            }
+            (ips, nodes)
+        };
         let mut b: Vec<String> = Vec::new();
         for n in &nodes {
             b.push(format!("ban:{}", id8(&n.raw())));
@@ -1447,6 +1488,8 @@ impl Runner for ServiceRunner {
         self.rt = None;
         self.seeds.clear();
         self.bans.clear();
+        self.ban_prev_ips.clear();
+        self.ban_prev_nodes.clear();
         self.rt = Some(new_rt());
     }
 
